@@ -127,6 +127,11 @@ func (c *CheckCtx) runJobs(jobs []*Job, keepProp func(o *Obligation) bool) {
 		for _, u := range tr.specErrs {
 			c.machineryErrors = append(c.machineryErrors, "contract error: "+u)
 		}
+		for _, k := range tr.errAt {
+			if k < len(tr.obls) {
+				tr.obls[k].SpecBroken = true
+			}
+		}
 		for k := range tr.usedStubs {
 			c.trusted["stub contract: "+k] = true
 		}
@@ -232,6 +237,12 @@ func (c *CheckCtx) finish() int {
 			knownMatched = append(knownMatched, f.Name)
 			continue
 		}
+		if f.Obl != nil && f.Obl.SpecBroken {
+			// the clause names something that does not resolve in this tree (a renamed local, a
+			// renumbered closure): the contract file is out of date, nothing is decided
+			c.machineryErrors = append(c.machineryErrors, "undecided (contract clause does not resolve in this tree): "+f.Name)
+			continue
+		}
 		violations++
 		path := filepath.Join(replayDir, fmt.Sprintf("%02d_%s.txt", i, safeName.ReplaceAllString(f.Name, "_")))
 		if len(path) > 200 {
@@ -311,18 +322,18 @@ func (c *CheckCtx) finish() int {
 	os.WriteFile(filepath.Join(outputDir, "evidence", id+".json"), data, 0o644)
 	fmt.Printf("property=%s tier=%s functions=%d obligations=%d discharged=%d failed=%d known=%d violations=%d wall=%.1fs\n",
 		id, c.tier, len(funcs), len(c.obls), discharged, len(c.failures), len(knownMatched), violations, time.Since(c.start).Seconds())
+	for _, m := range c.machineryErrors {
+		fmt.Println("MACHINERY-ERROR:", m)
+	}
+	if violations > 0 {
+		return 1
+	}
 	if len(c.machineryErrors) > 0 {
-		for _, m := range c.machineryErrors {
-			fmt.Println("MACHINERY-ERROR:", m)
-		}
 		return 2
 	}
 	if len(c.obls) == 0 && c.bounded == nil {
 		fmt.Println("MACHINERY-ERROR: no obligations generated")
 		return 2
-	}
-	if violations > 0 {
-		return 1
 	}
 	return 0
 }
